@@ -277,6 +277,86 @@ Theorem C09_setup_binds_spelled : forall w i cls p c d sp h,
     bind_get b (d_attr d) = Some (key_of p c (d_subtable d) (d_attr d), ty, canon (d_default d)).
 Proof. exact setup_binds_spelled. Qed.
 
+(* ---- the owner's truthiness plays no role ----------------------------- *)
+
+(* Vocabulary: an owner OBJECT is [(i, t)]: its identity i and how bool() of it
+   comes out at present, [t : truth] = TPlain (ordinary class, always true) |
+   TLen n (the class defines __len__: false while n = 0) | TBool b (the class
+   defines __bool__).  [tunable_get w instance a] is tunable.__get__ (instance
+   = None for access through the class), [tunable_set] is __set__.  An [xop]
+   history interleaves the operations above with [XSetTruth i t] (the owner's
+   state changes: a container-like component empties / fills up, a gate opens
+   / closes); [erase h] is the same history on ordinary objects. *)
+
+(* reading through an instance returns what its entry holds -- for EVERY
+   truthiness of the instance, the falsy ones (TLen 0, TBool false) included;
+   only access through the class yields the tunable object itself *)
+Theorem C09_read_ignores_truthiness : forall w i t a,
+  tunable_get w (Some (i, t)) a = GResult (py_read w i a) /\
+  tunable_get w None a = GSelf.
+Proof. exact (fun w i t a => conj (tunable_get_instance w i t a) (tunable_get_class w a)). Qed.
+
+(* "reading the attribute always returns the latest value set from either
+   side": any world, any interleaving h of attribute writes/reads, NT-side
+   writes/reads AND truthiness changes of any owners; the read happens on an
+   owner whose bool() is anything at that moment (t arbitrary) *)
+Theorem C09_read_latest_falsy_owner : forall x h i t b a k ty d,
+  no_setup (erase h) = true ->
+  inst_get (w_inst (x_w x)) i = Some b -> bind_get b a = Some (k, ty, d) ->
+  tunable_get (x_w (fst (xrun x h))) (Some (i, t)) a =
+  GResult (match last_write (x_w x) (erase h) k with
+           | Some v => EvVal v
+           | None => py_read (x_w x) i a
+           end).
+Proof. exact read_latest_any_truth. Qed.
+
+(* the event the read emits inside such a history (the model takes the
+   truthiness the owner has at that point of the history) *)
+Theorem C09_read_latest_event_falsy_owner : forall x h1 h2 i b a k ty d,
+  no_setup (erase h1) = true ->
+  inst_get (w_inst (x_w x)) i = Some b -> bind_get b a = Some (k, ty, d) ->
+  nth (length h1) (snd (xrun x (h1 ++ XOp (PyRead i a) :: h2)%list)) XDone =
+  XEv (match last_write (x_w x) (erase h1) k with
+       | Some v => EvVal v
+       | None => py_read (x_w x) i a
+       end).
+Proof. exact read_latest_event_any_truth. Qed.
+
+(* every history (Setups included) emits, operation by operation, the events
+   of the same history on ordinary always-true owners, and leaves the same
+   NetworkTables contents and bindings: all theorems above carry over *)
+Theorem C09_truthiness_irrelevant : forall h x,
+  x_w (fst (xrun x h)) = fst (run (x_w x) (erase h)) /\
+  xevents (snd (xrun x h)) = map Some (snd (run (x_w x) (erase h))).
+Proof. exact xrun_erase. Qed.
+
+(* two runs that differ only in the owners' truthiness (initially and in
+   when / how it changes) cannot be told apart *)
+Theorem C09_truthiness_unobservable : forall h1 h2 x1 x2,
+  x_w x1 = x_w x2 -> erase h1 = erase h2 ->
+  xevents (snd (xrun x1 h1)) = xevents (snd (xrun x2 h2)) /\
+  x_w (fst (xrun x1 h1)) = x_w (fst (xrun x2 h2)).
+Proof. exact truth_irrelevant. Qed.
+
+(* no attribute read on an instance ever hands back the tunable object *)
+Theorem C09_read_never_returns_descriptor : forall h x, ~ In XSelf (snd (xrun x h)).
+Proof. exact read_never_self. Qed.
+
+(* attribute assignment on an owner of any truthiness lands in its topic *)
+Theorem C09_write_falsy_owner : forall w i t b a k ty d v,
+  inst_get (w_inst w) i = Some b -> bind_get b a = Some (k, ty, d) ->
+  nt_get (w_nt (fst (tunable_set w (i, t) a v))) k = Some (ty, canon v).
+Proof. exact write_reaches_topic_any_truth. Qed.
+
+(* what a truthiness change must not change: NetworkTables, the bindings, and
+   the truthiness of every other owner *)
+Theorem C09_set_truth_changes_nothing_else : forall x i t,
+  x_w (fst (xstep x (XSetTruth i t))) = x_w x /\
+  truth_get (x_truth (fst (xstep x (XSetTruth i t)))) i = t /\
+  forall j, j <> i ->
+    truth_get (x_truth (fst (xstep x (XSetTruth i t)))) j = truth_get (x_truth x) j.
+Proof. exact set_truth_changes_nothing. Qed.
+
 (* ---- non-vacuity ----------------------------------------------------- *)
 
 Definition ex_cls : list decl :=
@@ -368,6 +448,39 @@ Example C09_nv_spelling :
   decl_topic_src (VList []) (mksrc None None) = RaiseValueError.
 Proof. vm_compute. intuition. Qed.
 
+(* falsy owners: instance 0 is an empty container (len 0), instance 1 a closed
+   gate (__bool__ False); both are set up and read WHILE FALSY, written from
+   both sides, the container fills up and empties again *)
+Definition ex_xh : list xop :=
+  [ XSetTruth 0 (TLen 0); XSetTruth 1 (TBool false);
+    XOp (Setup 0 ex_cls (Some "components") "idx"); XOp (Setup 1 ex_cls None "robot");
+    XOp (PyRead 0 "gain");
+    XOp (NtWrite "/components/idx/gain" NDouble (VScalar (SFloat 48)));
+    XOp (PyRead 0 "gain");
+    XSetTruth 0 (TLen 1);
+    XOp (PyWrite 0 "gain" (VScalar (SFloat 16)));
+    XSetTruth 0 (TLen 0);
+    XOp (PyRead 0 "gain"); XOp (PyRead 1 "gain");
+    XOp (PyWrite 1 "gain" (VScalar (SFloat 160))); XOp (PyRead 1 "gain") ].
+Example C09_nv_falsy :
+  snd (xrun x0 ex_xh) =
+  [ XDone; XDone; XEv (EvSetup true); XEv (EvSetup true);
+    XEv (EvVal (VScalar (SFloat 96)));
+    XEv EvWrote; XEv (EvVal (VScalar (SFloat 48)));
+    XDone; XEv EvWrote; XDone;
+    XEv (EvVal (VScalar (SFloat 16))); XEv (EvVal (VScalar (SFloat 96)));
+    XEv EvWrote; XEv (EvVal (VScalar (SFloat 160))) ] /\
+  falsy_now (fst (xrun x0 (firstn 6 ex_xh))) 0 = true /\
+  falsy_now (fst (xrun x0 (firstn 9 ex_xh))) 0 = false /\
+  falsy_now (fst (xrun x0 ex_xh)) 0 = true /\ falsy_now (fst (xrun x0 ex_xh)) 1 = true /\
+  falsy_now (fst (xrun x0 ex_xh)) 2 = false /\
+  truth_value (TLen 0) = false /\ truth_value (TBool false) = false /\
+  truth_value (TLen 3) = true /\ truth_value TPlain = true /\
+  no_setup (erase (skipn 4 ex_xh)) = true /\
+  last_write (x_w (fst (xrun x0 (firstn 4 ex_xh)))) (erase (skipn 4 ex_xh)) "/components/idx/gain"
+    = Some (VScalar (SFloat 16)).
+Proof. vm_compute. intuition. Qed.
+
 Print Assumptions C09_key.
 Print Assumptions C09_setup_binds_key.
 Print Assumptions C09_attr_write_reaches_topic.
@@ -396,3 +509,11 @@ Print Assumptions C09_postponed_annotation.
 Print Assumptions C09_topic_type_spelled.
 Print Assumptions C09_hinted_empty_sequence.
 Print Assumptions C09_setup_binds_spelled.
+Print Assumptions C09_read_ignores_truthiness.
+Print Assumptions C09_read_latest_falsy_owner.
+Print Assumptions C09_read_latest_event_falsy_owner.
+Print Assumptions C09_truthiness_irrelevant.
+Print Assumptions C09_truthiness_unobservable.
+Print Assumptions C09_read_never_returns_descriptor.
+Print Assumptions C09_write_falsy_owner.
+Print Assumptions C09_set_truth_changes_nothing_else.
